@@ -719,6 +719,99 @@ def _star_dict_calls(tree):
         n.keywords = new
 
 
+def _tail_blocks(blk):
+    """blk and every nested block whose end is the end of blk."""
+    yield blk
+    if not blk:
+        return
+    last = blk[-1]
+    if isinstance(last, ast.If):
+        for b in _tail_blocks(last.body):
+            yield b
+        if last.orelse:
+            for b in _tail_blocks(last.orelse):
+                yield b
+    elif isinstance(last, ast.Try) and not last.finalbody:
+        for b in _tail_blocks(last.orelse if last.orelse else last.body):
+            yield b
+        for h in last.handlers:
+            for b in _tail_blocks(h.body):
+                yield b
+    elif isinstance(last, ast.With):
+        for b in _tail_blocks(last.body):
+            yield b
+
+
+def _arms(st):
+    """Blocks one of which completes when st completes normally."""
+    if isinstance(st, ast.If) and st.orelse:
+        return [st.body, st.orelse]
+    if isinstance(st, ast.Try) and not st.finalbody:
+        return [st.orelse if st.orelse else st.body] + [
+            h.body for h in st.handlers]
+    return None
+
+
+def _thread_flags(blk, tree):
+    """``<try/if whose every arm ends in flag = True/False (or leaves)>``
+    directly followed by ``if flag: X`` (flag read nowhere else): X moves to
+    the end of the arms that set the flag true, the flag disappears."""
+    for i in range(len(blk) - 1):
+        st, nxt = blk[i], blk[i + 1]
+        arms = _arms(st)
+        if not arms or not (isinstance(nxt, ast.If) and not nxt.orelse):
+            continue
+        t = nxt.test
+        want = True
+        if isinstance(t, ast.UnaryOp) and isinstance(t.op, ast.Not):
+            t, want = t.operand, False
+        if not isinstance(t, ast.Name):
+            continue
+        flag = t.id
+        sets = []
+        ok = True
+        for arm in arms:
+            if not arm:
+                ok = False
+                break
+            last = arm[-1]
+            if isinstance(last, ast.Assign) and len(last.targets) == 1 and \
+                    isinstance(last.targets[0], ast.Name) and \
+                    last.targets[0].id == flag and isinstance(
+                        last.value, ast.Constant) and isinstance(
+                            last.value.value, bool):
+                sets.append((arm, last))
+            elif not _falls_through(arm):
+                continue
+            else:
+                ok = False
+                break
+        if not ok or not sets:
+            continue
+        # the flag is read only by that test and written only by the arms
+        # (and, possibly, one constant initialisation before)
+        scope = tree
+        for fn in ast.walk(tree):
+            if isinstance(fn, (ast.FunctionDef, ast.AsyncFunctionDef)) and \
+                    any(x is nxt for x in ast.walk(fn)):
+                scope = fn
+        loads = [x for x in ast.walk(scope) if isinstance(x, ast.Name)
+                 and x.id == flag and isinstance(x.ctx, ast.Load)]
+        stores = [x for x in ast.walk(scope) if isinstance(x, ast.Name)
+                  and x.id == flag and isinstance(x.ctx, ast.Store)]
+        if len(loads) != 1 or len(stores) > len(sets) + 1:
+            continue
+        for arm, last in sets:
+            arm.remove(last)
+            if last.value.value == want:
+                arm.extend(_plain_copy(x) for x in nxt.body)
+            if not arm:
+                arm.append(ast.copy_location(ast.Pass(), last))
+        del blk[i + 1]
+        return True
+    return False
+
+
 def src_dump(e):
     return ast.dump(e)
 
@@ -1133,7 +1226,7 @@ def _single_aliases(tree):
                             chain.append(root.attr)
                             root = root.value
                         if isinstance(root, ast.Name) and stores.get(
-                                b) == 1 and stores.get(root.id) == 1 and \
+                                b) == 1 and stores.get(root.id, 0) <= 1 and \
                                 b not in special and root.id not in special \
                                 and root.id not in ren and root.id not in \
                                 aren and not (set(chain) & attr_stores) and (
@@ -1307,13 +1400,14 @@ def normalise(tree):
             # 4. in a loop body, ``if c: continue`` followed by the rest of
             # the body  ->  ``if not c: <rest>``
             if isinstance(node, (ast.For, ast.While)):
-                # the loop body and, recursively, the body of an else-less
-                # if that ends such a block
-                tails = [node.body]
-                while tails[-1] and isinstance(
-                        tails[-1][-1], ast.If) and not tails[-1][-1].orelse:
-                    tails.append(tails[-1][-1].body)
+                # the loop body and, recursively, every block that ends it:
+                # the arms of a final if, the arms of a final try
+                tails = list(_tail_blocks(node.body))
                 for blk in tails:
+                    # falling off the end of such a block is `continue`
+                    if len(blk) > 1 and isinstance(blk[-1], ast.Continue):
+                        del blk[-1]
+                        changed = True
                     for i, st in enumerate(blk):
                         if isinstance(st, ast.If) and not st.orelse and len(
                                 st.body) == 1 and isinstance(
@@ -1324,6 +1418,24 @@ def normalise(tree):
                             del blk[i + 1:]
                             changed = True
                             break
+            # 5. a flag set in every arm of a try / if and tested right
+            # after it: the tested statements move into the arms
+            for fld in ('body', 'orelse', 'finalbody'):
+                blk = getattr(node, fld, None)
+                if isinstance(blk, list) and blk and isinstance(
+                        blk[0], ast.stmt) and _thread_flags(blk, tree):
+                    changed = True
+            # 6. ``try: A else: <break / continue / return constant>`` - the
+            # else arm cannot raise: it is the end of the body
+            if isinstance(node, ast.Try) and node.orelse and all(
+                    isinstance(x, (ast.Break, ast.Continue, ast.Pass)) or (
+                        isinstance(x, ast.Return) and (
+                            x.value is None or isinstance(
+                                x.value, ast.Constant)))
+                    for x in node.orelse):
+                node.body = node.body + node.orelse
+                node.orelse = []
+                changed = True
     ast.fix_missing_locations(tree)
     return tree
 
@@ -1692,6 +1804,27 @@ class Program(object):
                 done = True
         if not done:
             return
+        # a new method every call of which was expanded is dead code: nothing
+        # refers to its name any more
+        refs = {}
+        for m in self.modules.values():
+            for n in ast.walk(m.tree):
+                if isinstance(n, ast.Attribute):
+                    refs[n.attr] = refs.get(n.attr, 0) + 1
+                elif isinstance(n, ast.Constant) and isinstance(
+                        n.value, str) and n.value.isidentifier():
+                    refs[n.value] = refs.get(n.value, 0) + 1
+        for mn, names in new.items():
+            if mn not in self.inlined:
+                continue
+            for st in self.modules[mn].tree.body:
+                if isinstance(st, ast.ClassDef):
+                    for x in list(st.body):
+                        if isinstance(x, ast.FunctionDef) and '%s.%s' % (
+                                st.name, x.name) in names and not refs.get(
+                                    x.name) and not x.name.startswith('__') \
+                                and len(st.body) > 1:
+                            st.body.remove(x)
         for m in self.modules.values():
             if m.name in self.inlined:
                 m.reset_after_rewrite()
